@@ -653,9 +653,12 @@ func calcRun(w *tr.Writer, d jDoc, reg string, explicitRule bool, meta bool, r *
 		rate := func(from currency.Code) *currency.ExchangeRate {
 			return &currency.ExchangeRate{From: from, To: "MXN", Amount: num.MakeAmount(185000, 4)}
 		}
-		var probeK func(k, kind string, proj func() jRes, conv func() error)
-		probe := func(kind string, proj func() jRes, conv func() error) { probeK("convert", kind, proj, conv) }
-		probeK = func(k, kind string, proj func() jRes, conv func() error) {
+		var probeK func(k, kind string, proj func() jRes, recalc, conv func() error)
+		probe := func(kind string, proj func() jRes, recalc, conv func() error) {
+			probeK("convert", kind, proj, recalc, conv)
+		}
+		probeK = func(k, kind string, proj func() jRes, recalc, conv func() error) {
+			skip := false
 			e := calcEvent{K: k, Kind: kind, Reg: ev.Reg, D: d, Ok: true, R: emptyRes(), R2: emptyRes(), Perm: []int{}, RoundingAfter: []tr.Amt{}}
 			func() {
 				defer func() {
@@ -664,6 +667,12 @@ func calcRun(w *tr.Writer, d jDoc, reg string, explicitRule bool, meta bool, r *
 					}
 				}()
 				e.R = proj()
+				// only documents that calculating again leaves as they are: ConvertInto first recalculates the document
+				// it converts, and inputs with more decimals than the currency are rounded when presented (C04's subject)
+				if recalc() != nil || fmt.Sprint(proj()) != fmt.Sprint(e.R) {
+					skip = true
+					return
+				}
 				err := conv()
 				e.Ok2 = err == nil
 				if err != nil {
@@ -671,16 +680,18 @@ func calcRun(w *tr.Writer, d jDoc, reg string, explicitRule bool, meta bool, r *
 				}
 				e.R2 = proj()
 			}()
-			w.Emit(e)
+			if !skip {
+				w.Emit(e)
+			}
 		}
 		if x := reparse(); x != nil && x.Currency != "MXN" {
 			x.ExchangeRates = append(x.ExchangeRates, rate(x.Currency))
-			probe("invoice", func() jRes { return projectBill(invoiceBill(x)) }, func() error { _, err := x.ConvertInto("MXN"); return err })
+			probe("invoice", func() jRes { return projectBill(invoiceBill(x)) }, x.Calculate, func() error { _, err := x.ConvertInto("MXN"); return err })
 		}
 		// ... also when the converted copy is then inverted and the original calculated again
 		if x := reparse(); x != nil && x.Currency != "MXN" {
 			x.ExchangeRates = append(x.ExchangeRates, rate(x.Currency))
-			probeK("convert-invert", "invoice", func() jRes { return projectBill(invoiceBill(x)) }, func() error {
+			probeK("convert-invert", "invoice", func() jRes { return projectBill(invoiceBill(x)) }, x.Calculate, func() error {
 				c, err := x.ConvertInto("MXN")
 				if err != nil || c == nil {
 					return err
@@ -695,7 +706,7 @@ func calcRun(w *tr.Writer, d jDoc, reg string, explicitRule bool, meta bool, r *
 				o.ExchangeRates = append(o.ExchangeRates, rate(o.Currency))
 				probe("order", func() jRes {
 					return projectBill(billDoc{lines: o.Lines, discounts: o.Discounts, charges: o.Charges, payment: o.Payment, totals: o.Totals})
-				}, func() error { _, err := o.ConvertInto("MXN"); return err })
+				}, o.Calculate, func() error { _, err := o.ConvertInto("MXN"); return err })
 			}
 		}
 		dk := d
@@ -707,7 +718,7 @@ func calcRun(w *tr.Writer, d jDoc, reg string, explicitRule bool, meta bool, r *
 				probe("delivery", func() jRes {
 					return projectBill(billDoc{lines: o.Lines, discounts: o.Discounts, charges: o.Charges, totals: o.Totals})
 				},
-					func() error { _, err := o.ConvertInto("MXN"); return err })
+					o.Calculate, func() error { _, err := o.ConvertInto("MXN"); return err })
 			}
 		}
 	}
